@@ -37,7 +37,7 @@ CLAIMS['C09'] = dict(
          "committed only in the success region of realloc, which is handed the current block; (V3) at() returns only under i < count "
          "and aborts only under count <= i; (V4) resize changes count / runs xtors only after re-checking sz <= cap, aborting "
          "otherwise, and reserve grows only when sz > cap; (V7) the scratch slot used by sort/reverse is element index cap and the "
-         "setter allocates (request+1)*size; (V8) swap exchanges every member of the two vectors, the constructor/destructor description included; (V9) giving up the storage also sets the capacity to 0; (V10) resize steps the count (constructs / destroys) only in the direction of the request, and sets it directly only where no registered constructor / destructor is skipped (path-sensitive with a store/load model of the count); (V11) no element pointer read before a reallocation is used after it; (V12) sort/search/find/reverse hand the raw-array routines base, element COUNT and element size; (V13) a capacity set to 0 goes with an element count of 0 on that path (size <= capacity); (V3) both cstl_vector_at and cstl_vector_at_const; (V4) path-sensitive: count stores / xtor calls only where the capacity as it stands on that path covers the request; V2/V7 are judged with private helpers inlined (allocation and commit may be split); (V14) every store / effectful call made by the assertion-enabled build is also made by the NDEBUG build (no work inside assert()). Constructor/destructor exactly-once counts and byte preservation beyond realloc's "
+         "setter allocates (request+1)*size; (V8) swap exchanges every member of the two vectors, the constructor/destructor description included; (V9) giving up the storage also sets the capacity to 0; (V10) resize steps the count (constructs / destroys) only in the direction of the request, and sets it directly only where no registered constructor / destructor is skipped (path-sensitive with a store/load model of the count); (V11) no element pointer read before a reallocation is used after it; (V12) sort/search/find/reverse hand the raw-array routines base, element COUNT and element size; (V13) a capacity set to 0 goes with an element count of 0 on that path (size <= capacity); (V15) clear leaves the element size and the constructor / destructor description as they were; (V12) the storage address handed to the raw-array routines is never obtained through at() (which aborts on an empty vector); (V3) both cstl_vector_at and cstl_vector_at_const; (V4) path-sensitive: count stores / xtor calls only where the capacity as it stands on that path covers the request; V2/V7 are judged with private helpers inlined (allocation and commit may be split); (V14) every store / effectful call made by the assertion-enabled build is also made by the NDEBUG build (no work inside assert()). Constructor/destructor exactly-once counts and byte preservation beyond realloc's "
          "contract are NOT decided.",
     technique="no-wrap obligations by dominating-facts entailment over inlined LLVM IR; allocator-result discipline; structural agreement rules")
 CLAIMS['C10'] = dict(
@@ -56,7 +56,7 @@ CLAIMS['C14'] = dict(
          "stored only under beg <= end and a wrap-free off + end <= nm, rejected ranges abort; (A4) at() returns only under i < len, "
          "aborts only under len <= i, and addresses element off + i; (A5) release hands back only an external, uniquely referenced "
          "buffer -- the descriptor's own buffer pointer, never a pointer into it -- and resets the object there, otherwise reports NULL and changes nothing; (A6) array code never frees/allocates "
-         "directly and shares exactly when the two objects differ. (A7) alloc stores exactly the buffer address by which release recognises a library-owned buffer; (A9) slice and unslice write the same members of the destination view object; (A8) every store / effectful call made by the assertion-enabled build is also made by the NDEBUG build (no work inside assert()). History-level 'released exactly once' rests on C05.",
+         "directly and shares exactly when the two objects differ. (A7) alloc stores exactly the buffer address by which release recognises a library-owned buffer; (A9) slice and unslice write the same members of the destination view object; (A10) descriptor members are written only on a descriptor allocated by the same call; (A8) every store / effectful call made by the assertion-enabled build is also made by the NDEBUG build (no work inside assert()). History-level 'released exactly once' rests on C05.",
     technique="path-sensitive typestate with a store/load model + no-wrap obligations + dominating facts over inlined LLVM IR")
 
 CLAIMS['C16'] = dict(
@@ -111,7 +111,7 @@ CLAIMS['C13'] = dict(
          "function that writes a node link also maintains the same list's tail pointer (or re-initialises that list); (N3) swap "
          "re-anchors an empty list's tail to its own head link, reading the count after the swap; (N4) foreach reads the successor "
          "before the visit and propagates the first non-zero result; (N5) count is adjusted exactly once per primitive, concat adds "
-         "once and re-initialises the source; (N6) the tail is only ever set to the head link, another tail, or a node known to exist; (N7) swap exchanges every member; (N8) push_front / push_back / insert_after pass the anchor after which the primitive links; (N9) callbacks get the context supplied with them and their int result is never narrowed; (N10) the unlink primitive re-points the tail at the predecessor when it removes the last node; concat re-points the destination tail only for a non-empty source; (N12) erase_after / pop_front return the element of the node the unlink primitive handed back (or NULL); (N13) no writable static object; (N8, delegation) push_back/push_front delegating to insert_after do not pass an untested result of front()/back() (NULL for an empty list); (N11) every store / effectful call made by the assertion-enabled build is also made by the NDEBUG build (no work inside assert()). That reverse / sort / merge produce the right order is NOT decided.",
+         "once and re-initialises the source on every path on which anything of it was handed over (path-sensitive); (N6) the tail is only ever set to the head link, another tail, or a node known to exist; (N7) swap exchanges every member; (N8) push_front / push_back / insert_after pass the anchor after which the primitive links; (N9) callbacks get the context supplied with them and their int result is never narrowed; (N10) the unlink primitive re-points the tail at the predecessor when it removes the last node; concat re-points the destination tail only for a non-empty source; (N12) erase_after / pop_front return the element of the node the unlink primitive handed back (or NULL); (N13) no writable static object; (N8, delegation) push_back/push_front delegating to insert_after do not pass an untested result of front()/back() (NULL for an empty list); (N11) every store / effectful call made by the assertion-enabled build is also made by the NDEBUG build (no work inside assert()). That reverse / sort / merge produce the right order is NOT decided.",
     technique="documentation-contract rule (AST + IR return values) + field-effect rule + dominating facts + typestate over LLVM IR")
 
 CLAIMS['C01'] = dict(
@@ -145,7 +145,7 @@ CLAIMS['C11'] = dict(
     text="Thin by design: decides only clauses with a type- or shape-level necessary condition: (X1) no size_t count/index is "
          "narrowed in the raw-array routines; (X2) for every selector value - each enumerator and values outside the enumeration - exactly one sort of the caller's array is reached, "
          "a re-dispatch landing on a directly handled selector (path-sensitive, independent of switch / if-chain form); (X3) the sift-down reads computed child elements only under child < count; "
-         "(X4) linear find returns the ascending loop's index under cmp == 0, else -1; (X5) the quicksort pivot index is proven below count per alternative, or refuted by folding the index expression over rand()'s range (no verdict otherwise); (X6) every comparison call gets the context supplied with the function and its int result is never narrowed; (X7) every store / effectful call made by the assertion-enabled build is also made by the NDEBUG build (no work inside assert()). (X8) a search / reverse bound stepped down by one is either compared as a signed value or stepped only where known non-zero; (X9) a routine given a swap function (and its private helpers) moves elements only by calling it. 'Sorted permutation', 'search finds iff "
+         "(X4) linear find returns the ascending loop's index under cmp == 0, else -1; (X5) the quicksort pivot index is proven below count per alternative, or refuted by folding the index expression over rand()'s range (no verdict otherwise); (X6) every comparison call gets the context supplied with the function and its int result is never narrowed; (X7) every store / effectful call made by the assertion-enabled build is also made by the NDEBUG build (no work inside assert()). (X8) a search / reverse bound stepped down by one is either compared as a signed value or stepped only where known non-zero; (X9) a routine given a swap function (and its private helpers) moves elements only by calling it; (X10) search and find hand the comparison (probe, element) in that order; (X11) the loops of a sort driver are counted loops (no exit on a comparison result). 'Sorted permutation', 'search finds iff "
          "present' and partition bounds are NOT decided.",
     technique="taint + truncation rule, switch coverage, dominating facts over LLVM IR; enumerators from the AST")
 
@@ -155,7 +155,7 @@ CLAIMS['C05'] = dict(
          "its owner count equals installs minus clears of non-NULL pointers to it in owner objects, and of its reference count in "
          "all objects, allocation contributing (1,1) -- any imbalance is, by counting, an early free or a leak in some history; (M2) "
          "destroy is gated on the hard decrement's own result == 1, the bookkeeping free on the soft decrement's; (M3) unique "
-         "pointer reset/alloc/release/swap ordering; (M4) malloc/free only in the four lifetime functions; (M3, swap) an exchange of the clear pair skipped on some path only where the members are known equal; (M5) every store / effectful call made by the assertion-enabled build is also made by the NDEBUG build (no work inside assert()). History-level claims that "
+         "pointer reset/alloc/release/swap ordering; (M4) malloc/free only in the four lifetime functions; (M6) shared / weak swap exchanges the two bookkeeping pointers on every path on which they may differ; (M3, swap) an exchange of the clear pair skipped on some path only where the members are known equal; (M5) every store / effectful call made by the assertion-enabled build is also made by the NDEBUG build (no work inside assert()). History-level claims that "
          "also need correct client usage, and the values of get/unique, are NOT decided.",
     technique="path-sensitive typestate with store/load model (effect balance per path) + dominating facts over inlined LLVM IR")
 CLAIMS['C06'] = dict(
